@@ -21,7 +21,7 @@ func (propC20) ID() string { return "C20" }
 const c20Handles = 4
 const c20Slices = 2
 
-var c20Hosts = []string{"int", "int32", "uint", "uint32", "int64", "float32", "float64", "bool", "string", "time", "duration", "array", "variant", "nil", "struct", "slice", "map", "goarray", "structslice", "ptr", "ifacestruct", "func"}
+var c20Hosts = []string{"int", "int32", "uint", "uint32", "int64", "float32", "float64", "bool", "string", "time", "duration", "array", "variant", "nil", "struct", "slice", "map", "goarray", "structslice", "ptr", "ifacestruct", "func", "variantvalue"}
 
 type c20Struct struct{ A int }
 
@@ -66,7 +66,24 @@ func (propC20) Gen(r *Rand) *Plan {
 	var ops []Op
 	h := func() int { return r.Intn(c20Handles) }
 	for i := 0; i < nops; i++ {
-		switch r.Weighted([]int{8, 5, 3, 4, 4, 6, 2, 3, 5, 1, 4, 3, 4, 1}) {
+		if r.Bool(0.02) {
+			// a motif: one row object twice in an outer array, a clone, the clone's second row replaced by a
+			// near-copy, equality in both directions
+			a, b := h(), h()
+			row := []Val{VInt(1), VInt(2)}
+			near := []Val{VInt(1), VInt(r.Range(2, 3))}
+			ops = append(ops, Op{Op: "rows", H: a, Vs: row}, Op{Op: "clone", H: b, H2: a}, Op{Op: "nestelem", H: b, I: 1, Vs: near},
+				Op{Op: "equals", H: a, H2: b}, Op{Op: "equals", H: b, H2: a})
+			continue
+		}
+		switch r.Weighted([]int{8, 5, 3, 4, 4, 6, 2, 3, 5, 1, 4, 3, 4, 1, 2, 2, 2}) {
+		case 14: // the caller appends to its own list (inside its capacity when there is room)
+			v := c20Scalar(r)
+			ops = append(ops, Op{Op: "appendslice", J: r.Intn(c20Slices), V: &v})
+		case 15: // the same element object a second time in the same array
+			ops = append(ops, Op{Op: "dupelem", H: h(), I: r.Intn(4), J: r.Intn(5)})
+		case 16: // an array as element
+			ops = append(ops, Op{Op: "nestelem", H: h(), I: r.Intn(4), Vs: c20List(r)})
 		case 12: // change an element object in place, through the variant
 			v := c20Scalar(r)
 			ops = append(ops, Op{Op: "mutelem", H: h(), I: r.PickInt([]int{0, 0, 1, 2, 3, 4, 8}), V: &v})
@@ -109,7 +126,7 @@ func (propC20) Gen(r *Rand) *Plan {
 			ops = append(ops, Op{Op: "assignnil", H: h()})
 		}
 	}
-	return &Plan{Tasks: []TaskPlan{{Ops: ops}}}
+	return &Plan{Config: map[string]string{"obs": fmt.Sprint(r.ObsStride())}, Tasks: []TaskPlan{{Ops: ops}}}
 }
 
 type c20Model struct {
@@ -122,6 +139,9 @@ type c20Model struct {
 	// identity of the element objects of a known list (-1: a slot whose object was changed in
 	// place through another holder - a shallow or a deep copy are both fine, so nothing is asserted)
 	ids []int
+	// copied: the list came from Clone / Assign / another variant; whether two positions that held one
+	// object in the source still hold one object here is not fixed (a deep copy may split them)
+	copied bool
 }
 
 func (propC20) Exec(p *Plan, x *Ctx) *Outcome {
@@ -132,6 +152,7 @@ func (propC20) Exec(p *Plan, x *Ctx) *Outcome {
 	ops := p.Tasks[0].Ops
 	run := NewRun(0)
 	mutations := 0
+	stride := p.Stride()
 	body := func() {
 		hs := make([]*variants.Variant, c20Handles)
 		ms := make([]*c20Model, c20Handles)
@@ -211,13 +232,18 @@ func (propC20) Exec(p *Plan, x *Ctx) *Outcome {
 			ms[h].known = true
 			ms[h].cls = -1
 			ms[h].ids = nil
+			ms[h].copied = false
 			if v.T == "Array" {
 				ms[h].cls = newCls()
 				ms[h].ids = newIDs(v.A) // replaced by the right objects where the list was built from existing ones
 			}
 		}
+		// the caller's lists have spare capacity now and then (also the empty ones): whether two slices share
+		// memory depends on capacity, not only on length
+		fillN := 0
 		fill := func(vs []Val) []*variants.Variant {
-			a := make([]*variants.Variant, len(vs))
+			fillN++
+			a := make([]*variants.Variant, len(vs), len(vs)+[]int{0, 0, 4, 1, 16}[fillN%5])
 			for i := range vs {
 				a[i] = vs[i].ToVariant()
 			}
@@ -316,6 +342,9 @@ func (propC20) Exec(p *Plan, x *Ctx) *Outcome {
 			case "ifacestruct": // a struct type that is comparable statically but holds an uncomparable value
 				s := struct{ A any }{[]int{int(i64 % 3)}}
 				return hostRes{val: s, model: Val{T: "Object", S: fmt.Sprintf("%T:%v", s, s)}, share: -1, ok: true}
+			case "variantvalue": // the library's own struct by value is an "other" host value
+				s := *variants.VariantFromInteger(int(i64 % 7))
+				return hostRes{val: s, model: Val{T: "Object", S: fmt.Sprintf("%T:%v", s, s)}, share: -1, ok: true}
 			case "func":
 				return hostRes{val: c20Func, model: Val{T: "Object", S: "func(int) int:c20Func"}, share: -1, ok: true}
 			}
@@ -330,6 +359,7 @@ func (propC20) Exec(p *Plan, x *Ctx) *Outcome {
 			ms[h].known = srcKnown
 			if r.model.T == "Array" && len(r.ids) == len(r.model.A) {
 				ms[h].ids = r.ids // the list was built from existing element objects
+				ms[h].copied = r.share >= 0
 			}
 			if r.share >= 0 && r.share != h && r.model.T == "Array" {
 				// a variant built from another variant may share its list (not asserted either way)
@@ -560,6 +590,7 @@ func (propC20) Exec(p *Plan, x *Ctx) *Outcome {
 					if src.v.T == "Array" {
 						ms[o.H].cls = src.cls
 						ms[o.H].ids = append([]int{}, src.ids...)
+						ms[o.H].copied = true
 					}
 				}
 			case "assignnil":
@@ -576,6 +607,7 @@ func (propC20) Exec(p *Plan, x *Ctx) *Outcome {
 					setModel(o.H, src.v)
 					ms[o.H].known = src.known
 					ms[o.H].ids = append([]int{}, src.ids...) // a clone may hold the same element objects (shallow) or copies
+					ms[o.H].copied = true
 					// mutating the original is not promised to leave the clone alone;
 					// mutating the clone must leave the original alone
 					if src.v.T == "Array" {
@@ -604,6 +636,15 @@ func (propC20) Exec(p *Plan, x *Ctx) *Outcome {
 				}
 				// the element object itself is changed, through this variant
 				hs[o.H].GetByIndex(o.I).Assign(o.V.ToVariant())
+				if m.copied {
+					// in a copied list, other positions that held the same object in the source may or may not
+					// hold the same object here
+					for j := range m.ids {
+						if j != o.I && m.ids[j] == id {
+							m.ids[j] = -1
+						}
+					}
+				}
 				elem[id] = *o.V
 				// other holders of the same object (clones, assigned variants, the caller's slice) may
 				// hold it or a copy of it: their slot is no longer asserted
@@ -635,6 +676,64 @@ func (propC20) Exec(p *Plan, x *Ctx) *Outcome {
 				if o.I > 60 {
 					out.Probes["nested_deeper_than_60"]++
 				}
+			case "appendslice":
+				if o.J < 0 || o.J >= c20Slices || o.V == nil || slices[o.J] == nil {
+					continue
+				}
+				slices[o.J] = append(slices[o.J], o.V.ToVariant()) // the caller's own list grows (in place when capacity allows)
+				sliceIDs[o.J] = append(sliceIDs[o.J], newIDs([]Val{*o.V})[0])
+				out.Probes["caller_slice_appended"]++
+				mutations++
+			case "dupelem":
+				m := ms[o.H]
+				if m.v.T != "Array" || !m.known || len(m.ids) != len(m.v.A) || o.I < 0 || o.I >= len(m.v.A) || o.J < 0 || o.J > len(m.v.A) || o.J > 64 {
+					continue
+				}
+				// the element object at I is put at J as well: one object, two positions
+				el := hs[o.H].GetByIndex(o.I)
+				hs[o.H].SetByIndex(o.J, el)
+				taint(o.H)
+				a := append([]Val{}, m.v.A...)
+				ids := append([]int{}, m.ids...)
+				for len(a) <= o.J {
+					a = append(a, VNull())
+					ids = append(ids, newIDs([]Val{VNull()})[0])
+				}
+				a[o.J] = a[o.I]
+				ids[o.J] = ids[o.I]
+				m.v = Val{T: "Array", A: a}
+				m.ids = ids
+				out.Probes["element_object_twice_in_one_array"]++
+				mutations++
+			case "nestelem", "rows":
+				m := ms[o.H]
+				if o.Op == "rows" {
+					// a fresh outer array holding one row object twice
+					row := VArr(o.Vs...).ToVariant()
+					hs[o.H] = variants.VariantFromArray([]*variants.Variant{row, row})
+					setModel(o.H, VArr(VArr(o.Vs...), VArr(o.Vs...)))
+					id := newIDs([]Val{VArr(o.Vs...)})[0]
+					ms[o.H].ids = []int{id, id}
+					out.Probes["element_object_twice_in_one_array"]++
+					mutations++
+					break
+				}
+				if m.v.T != "Array" || !m.known || len(m.ids) != len(m.v.A) || o.I < 0 || o.I > len(m.v.A) || o.I > 64 {
+					continue
+				}
+				hs[o.H].SetByIndex(o.I, VArr(o.Vs...).ToVariant())
+				taint(o.H)
+				a := append([]Val{}, m.v.A...)
+				ids := append([]int{}, m.ids...)
+				for len(a) <= o.I {
+					a = append(a, VNull())
+					ids = append(ids, newIDs([]Val{VNull()})[0])
+				}
+				a[o.I] = VArr(o.Vs...)
+				ids[o.I] = newIDs([]Val{a[o.I]})[0]
+				m.v = Val{T: "Array", A: a}
+				m.ids = ids
+				mutations++
 			case "clear":
 				hs[o.H].Clear()
 				setModel(o.H, VNull())
@@ -658,6 +757,9 @@ func (propC20) Exec(p *Plan, x *Ctx) *Outcome {
 			}
 			out.ModelStates = append(out.ModelStates, st.Sum())
 			refresh()
+			if !Observe(stride, i, len(ops)) {
+				continue
+			}
 			if !checkAll(i, o) {
 				return
 			}
